@@ -8,7 +8,7 @@ from fractions import Fraction
 import numpy as np
 
 from ..model import EPS, LArr, Snap, as_float, compare_larr, isnan, nabs, nadd, ndiv, nmax, nmin, nmul, nsub, to_num
-from .common import (MAX_CELLS, additive_exact, exc_text, first_diff, has_inf, is_real_number, lens, regime, rel_tolerance,
+from .common import (judgeable_dtype, MAX_CELLS, additive_exact, exc_text, first_diff, has_inf, is_real_number, lens, regime, rel_tolerance,
                      same_universe, sum_tolerance, unique_items)
 
 M = "arith-by-label"
@@ -55,7 +55,7 @@ def register(hub, prop="C01"):
             return
         nx = int(np.prod(xs.shape)) if xs.shape else 1
         ny = int(np.prod(ys.shape)) if ys is not None and ys.shape else 1
-        if xs.values.dtype.kind not in "fiu" or (ys is not None and ys.values.dtype.kind not in "fiu"):
+        if not judgeable_dtype(xs.values) or (ys is not None and not judgeable_dtype(ys.values)):
             rec.skip(M, "non-real dtype")
             return
         X = None
@@ -190,7 +190,7 @@ def register(hub, prop="C01"):
             xs = call.pre[0]
             if not isinstance(xs, Snap) or not xs.ok:
                 return
-            if xs.values.size > MAX_CELLS or xs.values.dtype.kind not in "fiu":
+            if xs.values.size > MAX_CELLS or not judgeable_dtype(xs.values):
                 rec.skip(M, "unary: too large or non-real")
                 return
             inplace = bool(call.arg(1, "inplace", False)) if kind in ("absm", "sign") else False
